@@ -16,9 +16,9 @@ CHECKS = {
    technique="deterministic simulation: seeded scheduler controlling real threads at lock/commit points with deadlock detection and sequential-outcome oracle",
    note="Trusted base: hooks H1/H2 (lock wrappers model parking_lot's writer preference; LMDB writer mutex shadowed by a token); scheduling granularity is lock operations, durable steps and sleeps."),
  "C16": dict(engine="pibdsim", cat="exploration", ref="5/C16",
-   text="State sync between a real serving node (Segmenter; optionally compacted) and a real headers-only receiver (Desegmenter) through a harness loop mirroring StateSync::continue_pibd, over a simulated network that reorders, duplicates, drops and corrupts serialized segment responses (one root-bound element per corruption), with segment heights 0-4 via the cfg(grin_verif) override; plus the zip path. Honest segments must validate, corrupted ones be refused, assembly must finish within a bounded number of fault-free rounds and the finalized state must equal that of a node that processed every block to the archive header (roots, sizes, unspent set, validate(false)); the rest of the chain is then accepted and a restart succeeds. Per small world two more syncs run between two real nodes with their complete p2p stacks (E11 netsim): headers as Headers messages, segment requests through the receiver's real Peer object and outbound connection, answers from the serving node's real Protocol / NetToChainAdapter / Segmenter relayed by the simulator (fault free; and with a wire that loses, duplicates, delays and flips bytes), finishing in the same reference state.",
-   technique="deterministic simulation: seeded segment delivery schedules with loss/duplication/reordering/corruption between real Segmenter and Desegmenter, directly and over the two nodes' real p2p stacks",
-   note="Trusted base: harness mirror of the sync loop and of receive_*_segment; the serving chain keeps its archive header at or above its compaction horizon (always true with mainnet parameters); one case in eight has a multi-chunk bitmap (1081+ real outputs)."),
+   text="State sync between a real serving node (Segmenter; optionally compacted) and a real headers-only receiver (Desegmenter) through a harness loop mirroring StateSync::continue_pibd, over a simulated network that reorders, duplicates, drops and corrupts serialized segment responses (one root-bound element per corruption), with segment heights 0-4 via the cfg(grin_verif) override; plus the zip path. Honest segments must validate, corrupted ones be refused, assembly must finish within a bounded number of fault-free rounds and the finalized state must equal that of a node that processed every block to the archive header (roots, sizes, unspent set, validate(false)); the rest of the chain is then accepted and a restart succeeds. Per small world two more syncs run between two real nodes with their complete p2p stacks (E11 netsim): headers as Headers messages, segment requests through the receiver's real Peer object and outbound connection, answers from the serving node's real Protocol / NetToChainAdapter / Segmenter relayed by the simulator (fault free; and with a wire that loses, duplicates, delays and flips bytes), finishing in the same reference state. Per small or compacted world one or two further syncs are driven by the receiving node's own sync loop (E12 syncsim): the real servers run_sync thread (SyncRunner, HeaderSync, StateSync with its PIBD request tracking, 20 s segment timeouts, peer exclusion and 660 s fall-back to the state archive, BodySync) stepped by a sleep gate under a simulated wall clock against a serving real node, with loss, delay, duplication, corruption, stalling and returning peers, clock jumps past every deadline and clean restarts of the receiver mid-sync; whenever the head moves the state must be the reference state of that height, and after the faults the loop must end in NoSync on the serving node's head with identical roots and unspent set.",
+   technique="deterministic simulation: seeded segment delivery schedules with loss/duplication/reordering/corruption between real Segmenter and Desegmenter, directly, over the two nodes' real p2p stacks, and driven by the node's own sync loop stepped under a simulated clock",
+   note="Trusted base: harness mirror of the sync loop and of receive_*_segment (typed and wire runs; the syncsim runs use the real loop, with the bitmap segment of a single-leaf bitmap MMR volunteered by the serving side); the serving chain keeps its archive header at or above its compaction horizon (always true with mainnet parameters); one case in eight has a multi-chunk bitmap (1081+ real outputs)."),
  "C14": dict(engine="poolsim", cat="exploration", ref="5/C14",
    text="A real chain plus a real TransactionPool, wired through the real servers::PoolToChainAdapter and ChainToPoolAndNetAdapter as Server::new wires them, are driven with seeded interleavings of submissions of every kind (valid, dependent on one or two pooled parents, conflicting, duplicate, aggregated incl. an under-fee remainder, under-fee, fee-shifted honest / underpaying, output-less, bad signature, immature / just-mature / mixed-maturity coinbase spends, future/next lock height, fluffing of a stemmed transaction, stem/fluff with simulated relay failures), blocks mined from the mineable set, blocks with arbitrary pool subsets and conflicting spends, headers arriving ahead of their blocks, reorgs and capacity shrinks (every schedule contains a shrink below the current size followed by an under-fee and a valid submission); after every operation the pool's joint validity on the current head, per-entry fee/weight/validity, stempool+txpool validity and the mineable set are checked, and blocks built from the mineable set must be accepted by the chain. Every other run is a network run (E11 netsim): the node carries its complete p2p stack and the real PoolToNetAdapter, submissions and blocks arrive as peer messages from lock-stepped simulated peers (transactions also announced by kernel hash, blocks also header-first and compact with the node's requests served), an outbound simulated peer is the node's Dandelion relay in three of four such runs, and before every block mined from the pool the node's own mine_block::get_block must return a block within the weight limit that a replica of the node's data directory accepts. Every fourth case is a mesh of 2-4 real nodes gossiping over simulated wires (pushes of fluff, stem and conflicting transactions, mining from each node's own pool, partitions): every node's txpool and txpool + stempool must apply on that node's own head after every operation.",
    technique="deterministic simulation: seeded interleavings of pool submissions, block connections, reorgs and evictions with invariants checked after every step; lock-stepped simulated peers against the real p2p stack",
@@ -56,8 +56,8 @@ CHECKS = {
    text="Seeded simulation: after every delivery (forks, reorgs, restarts) the committed bitmap root must equal an accumulator built from scratch over the reported unspent set and an independent re-implementation; a re-mined block committing to a bitmap with one flipped bit must be refused.",
    technique="deterministic simulation: seeded apply/rewind histories against a from-scratch bitmap commitment model"),
  "C03": dict(engine="chainsim", cat="exploration", ref="5/C03",
-   text="Seeded simulation: real Chain replicas are fed generated fork trees (real PoW worlds and SKIP_POW worlds with free per-block difficulties) in seeded delivery orders with duplicates, child-before-parent, header batches (also overlapping what the node already has) and clean restarts, including worlds whose forks leave a 56-66 block trunk more than 50 blocks below its tip; after every delivery head/header_head are compared with a most-work model driven by the node's own accept events, and at quiescence every replica must equal a reference node fed the winning chain alone and pass full validation. Every fourth case (E11 netsim) a real-PoW world reaches one real node through its complete p2p stack (real Peers / Peer / Handshake / conn reader and writer threads / Protocol / TrackingAdapter / NetToChainAdapter over loopback sockets) from 2-3 simulated peers that keep one message in flight: header-first announcements, unsolicited compact and full blocks, children before parents, duplicates, reconnects, unanswered requests; the node's own requests (compact block after a header, full block after failed hydration, parent of an orphan) are served by seeded policy; head must always be an accepted block of greatest work, orphans must be adopted once their parent is there, honest peers are never banned, and the final state must equal the reference node's; one such run in four starts with header sync and body sync through the adapter. Every eighth case is a mesh of 2-4 real nodes with the simulator as every wire between them (seeded link order, partitions that hold frames, heals): blocks mined on a node from its own pool spread by the nodes' own relay, and at quiescence all nodes must sit on the most-work block mined with identical state.",
-   technique="deterministic simulation: seeded schedule search over block/header delivery orders against a most-work reference model; lock-stepped simulated peers against the real p2p stack",
+   text="Seeded simulation: real Chain replicas are fed generated fork trees (real PoW worlds and SKIP_POW worlds with free per-block difficulties) in seeded delivery orders with duplicates, child-before-parent, header batches (also overlapping what the node already has) and clean restarts, including worlds whose forks leave a 56-66 block trunk more than 50 blocks below its tip; after every delivery head/header_head are compared with a most-work model driven by the node's own accept events, and at quiescence every replica must equal a reference node fed the winning chain alone and pass full validation. Every fourth case (E11 netsim) a real-PoW world reaches one real node through its complete p2p stack (real Peers / Peer / Handshake / conn reader and writer threads / Protocol / TrackingAdapter / NetToChainAdapter over loopback sockets) from 2-3 simulated peers that keep one message in flight: header-first announcements, unsolicited compact and full blocks, children before parents, duplicates, reconnects, unanswered requests; the node's own requests (compact block after a header, full block after failed hydration, parent of an orphan) are served by seeded policy; head must always be an accepted block of greatest work, orphans must be adopted once their parent is there, honest peers are never banned, and the final state must equal the reference node's; one such run in four starts with header sync and body sync through the adapter. Every eighth case is a mesh of 2-4 real nodes with the simulator as every wire between them (seeded link order, partitions that hold frames, heals): blocks mined on a node from its own pool spread by the nodes' own relay, and at quiescence all nodes must sit on the most-work block mined with identical state. Every eighth case (E12 syncsim) the world reaches the node through its own sync loop - the real servers run_sync thread (SyncRunner, HeaderSync, BodySync, StateSync) made a step function by a sleep gate and a simulated wall clock - from a serving real node over a faulty wire (loss, delay, duplication, corruption, stalls, redials, clock jumps past every timeout, clean restarts), starting on a lighter branch, on a prefix or empty; the head must always be a validated block of the served chain with the reference state, and after the faults the loop must finish on the serving node's head.",
+   technique="deterministic simulation: seeded schedule search over block/header delivery orders against a most-work reference model; lock-stepped simulated peers against the real p2p stack; the node's sync loop stepped under a simulated clock",
    note="Trusted base: the harness wallet/miner/reference models in /verif/sim; AutomatedTesting chain parameters; chainsim cases stub p2p and the servers adapters (call order mirrored), netsim cases run them for real and stub only the remote peers and the sync/seed/monitor loops. Sampling, not enumeration: a clean batch is evidence, not proof."),
  "C02": dict(engine="chainsim", cat="exploration", ref="5/C02",
    text="Seeded simulation over spend-heavy fork trees plus byzantine blocks (double spend, never-created input, fork-foreign input, duplicated unspent commitment): after every delivery get_unspent over every commitment ever created and the paged enumeration must equal the ledger replayed from the node's own best chain; invalid blocks must be refused.",
@@ -132,6 +132,8 @@ def main():
              "kind_free_text": "real LMDB wrapper against a nested-transaction map model; seeded thread schedules; crash points around commit"},
             {"name": "netsim", "path": "/verif/sim/src/netsim.rs", "serves_properties": [p for p in claimed if p in ("C03", "C06", "C11", "C14", "C16", "C19")],
              "kind_free_text": "one real node with its complete p2p stack (Peers, Peer, Handshake, conn threads, Protocol, servers adapters, pool, chain) against simulated remote peers on lock-stepped loopback sockets"},
+            {"name": "syncsim", "path": "/verif/sim/src/syncsim.rs", "serves_properties": [p for p in claimed if p in ("C03", "C16")],
+             "kind_free_text": "the node's own sync loop (servers run_sync: SyncRunner, HeaderSync, BodySync, StateSync) as a step function: sleep gate and simulated wall clock by symbol interposition (simclock.rs), a serving real node behind a simulated faulty wire"},
             {"name": "chainsim", "path": "/verif/sim/src/chainsim.rs", "serves_properties": [p for p in claimed if CHECKS[p]["engine"] == "chainsim" or p == "C08"],
              "kind_free_text": "deterministic simulation of N real Chain nodes on a simulated network with byzantine inputs"},
         ],
